@@ -20,11 +20,12 @@ of configurations runs the same edges unpatched on the real kernel and must
 give the same results.
 """
 import contextlib
+import gc
 import itertools
 import struct
 
 from mc import core, dsl, kern, simkernel
-from ebpfcat.bpf import UpdateFlags
+from ebpfcat.bpf import ProgType, UpdateFlags
 from ebpfcat.ebpf import EBPF, Instruction, Member, Structure
 from ebpfcat.hashmap import Dict, HashMap
 from harness.c08_arraymap import real_kernel
@@ -147,11 +148,43 @@ def fmt_range(fmt):
     return 0, (1 << bits) - 1
 
 
+def has_prefix(fmt):
+    """does the format carry its own byte order ('>H', '!i', '<Q')"""
+    return fmt[0] in "<>!"
+
+
+def sf(fmt):
+    """struct format of the reference encoding: a format with its own byte
+    order keeps it, everything else is little endian"""
+    return fmt if has_prefix(fmt) else "<" + fmt
+
+
+class SiblingBuilder(dsl.Builder):
+    """a Builder around one more instance of the program class of `first`
+    (same packet layout, same raw preamble)"""
+
+    def __init__(self, first, preamble):
+        for k in ("pv_area", "in_off", "n_in", "n_out", "out_off", "pkt_len",
+                  "cls"):
+            setattr(self, k, getattr(first, k))
+        if len(preamble) != 7 or not all(
+                isinstance(i.opcode, dsl.Raw) for i in preamble):
+            raise core.Internal("unexpected Builder preamble")
+        self.e = self.cls(prog_type=ProgType.XDP, license="GPL",
+                          subprograms=())
+        self.e.opcodes.extend(preamble)
+        self.e.owners.add(9)
+        self._decoded = None
+
+
 # ====================================================================
 # hash-map variables
 # ====================================================================
 HFMT = ["I", "i", "Q", "q", "B", "h"]
+# formats with their own byte order: judged on values, see HashVarCase
+XHFMT = [">H", ">I", "!h", "<I", ">q", "<Q", "!B", ">i", "<h"]
 DEFAULTS = [0, 5, -1]
+KF_BEGET = "C09-hashvar-bigendian-python-read"
 
 
 def hv_values(fmt):
